@@ -204,11 +204,12 @@ func (i *Inserter) ingestTableFromBlocks(columns []string, pk []uint32) ([]byte,
 	if err != nil {
 		return nil, err
 	}
-	sum, err := objects.SaveTable(i.db, buf.Bytes())
-	if err != nil {
-		return nil, err
-	}
-	i.logger.Info("saved table", "sum", sum)
+	// the table object is what marks a table as present, so it is saved last:
+	// a crash or error half-way must not leave a table without its index
+	tblBytes := make([]byte, buf.Len())
+	copy(tblBytes, buf.Bytes())
+	arr := meow.Checksum(0, tblBytes)
+	sum := arr[:]
 
 	// write and save table index
 	buf.Reset()
@@ -235,6 +236,12 @@ func (i *Inserter) ingestTableFromBlocks(columns []string, pk []uint32) ([]byte,
 			return nil, err
 		}
 	}
+
+	sum, err = objects.SaveTable(i.db, tblBytes)
+	if err != nil {
+		return nil, err
+	}
+	i.logger.Info("saved table", "sum", sum)
 
 	return sum, nil
 }
